@@ -124,7 +124,7 @@ extern "C" void harness_queries()  /* vf: bounds=query_forms_of_the_property(A[]
 {
     Ctx cx;
     vf_assert(cx.declare(DECLS) == 0, "declarations-accepted");
-    int form = vf_pick("!form", 34);
+    int form = vf_pick("!form", 36);
     static const char* BOUND[] = {"<=10", "#<=10", "x<=10"};
     std::string bnd = BOUND[vf_pick("!bound", 3)], runs = vf_pick("!runs", 2) ? "; 7" : "", pq = vf_pick("!box", 2) ? "[]" : "<>", cmp = vf_pick("!le", 2) ? "<=" : ">=";
     std::string t;
@@ -163,6 +163,8 @@ extern "C" void harness_queries()  /* vf: bounds=query_forms_of_the_property(A[]
     case 31: t = "Pr ([] [0,10] (p U[1,2] q))"; break;
     case 32: t = "A[] forall (k : int[0,3]) arr[k] < 5"; break;
     case 33: t = "E<> exists (k : int[0,3]) arr[k] == k && p"; break;
+    case 34: t = "Pr[" + bnd + runs + "] (p U q && a > 1)"; break;
+    case 35: t = "Pr[" + bnd + runs + "] (" + pq + " q) " + cmp + " 0.25"; break;
     }
     roundtrip(cx, t, [&](const std::string& s) { QB qb(cx.doc); qb.query = expression_t(); int rc = parseProperty(s.c_str(), &qb, ""); return rc == 0 ? qb.query : expression_t(); });
     vf_reach("end");
